@@ -710,6 +710,7 @@ def match_finding(f, ctx):
     {"feat": {"contains": x}}   x in ctx[feat] (list or string)
     {"feat": {"any_of": [..]}}  ctx[feat] (a list) shares an element
     {"feat": {"subset_of": [..]}} every element of ctx[feat] is listed
+    {"feat": {"min": n}}        ctx[feat] >= n
     """
     m = f.get("match")
     if not m:
@@ -727,6 +728,8 @@ def match_finding(f, ctx):
             if "subset_of" in cond and (v is None or not set(v) <= set(cond["subset_of"])):
                 return False
             if "not" in cond and v == cond["not"]:
+                return False
+            if "min" in cond and (v is None or v < cond["min"]):
                 return False
         else:
             if v != cond:
